@@ -73,7 +73,9 @@ class C04(Property):
         n = 120 if tier == 'quick' else 2500
         for _ in range(n):
             yield {'gen_seed': rng.randrange(10 ** 9),
-                   'opts': {'safe_indices': rng.random() < 0.5, 'scaling': rng.random() < 0.3}}
+                   'opts': {'safe_indices': rng.random() < 0.5, 'scaling': rng.random() < 0.3,
+                            # two inputs promoted by one promotes() call with one src_indices object
+                            'shared_promotes': rng.random() < 0.4}}
 
     def _md(self, case):
         return gm.gen_md(random.Random(case['gen_seed']), **case['opts'])
